@@ -913,6 +913,21 @@ class Engine:
             return
         r = self.ext.binop(self, ctx, op, a, b)
         if r is None:
+            # arithmetic on an opaque value (a decoded payload item): decided where the value is known to be an int
+            opq = [v for v, n_ in ((a, x), (b, y)) if n_ is None]
+            if isinstance(op, (ast.Add, ast.Sub, ast.Mult)) and all(isinstance(v, S) and v.sort == 'V' for v in opq) \
+                    and all(n_ is not None or (isinstance(v, S) and v.sort == 'V') for v, n_ in ((a, x), (b, y))):
+                isint = z3.And(*[smt.kind(v.t) == smt.K_INT for v in opq])
+                for c2, ok in self.branch(ctx, isint):
+                    if not ok:
+                        raise Unsupported('binop %s on an opaque value that need not be an int' % type(op).__name__)
+                    xi = x if x is not None else smt.int_of(a.t)
+                    yi = y if y is not None else smt.int_of(b.t)
+                    if xi.sort() == R or yi.sort() == R:
+                        xi = z3.ToReal(xi) if xi.sort() == I else xi
+                        yi = z3.ToReal(yi) if yi.sort() == I else yi
+                    yield c2, S(xi + yi if isinstance(op, ast.Add) else xi - yi if isinstance(op, ast.Sub) else xi * yi)
+                return
             raise Unsupported('binop %s on %r, %r' % (type(op).__name__, a, b))
         yield from r
 
